@@ -108,6 +108,20 @@ CHECKS = {
         "Redshifts sit exactly on every edge of every pool configuration so that a wrongly reused tree changes counts.",
         "checks/c07_history.py",
     ),
+    "C08": (
+        "fault_enumeration",
+        "crash injection: strace SIGKILL on entry to every file-system call of each workload + forked recovery probes",
+        "Each cache-writing workload (catalog creation fresh / with overwrite / through buffered writers, metadata "
+        "computation, tree builds and rebuilds with other edges, closed side, bin count, forced, unbinned, a measurement "
+        "over cached trees, CorrFunc/CorrData/HistData/Configuration files fresh and over older files) is traced once and then "
+        "replayed once per operation touching the state directory and killed exactly on entry to it (strace -P <paths> -e "
+        "inject=<call>:signal=SIGKILL:when=<j>, self-checked against the reference trace); every distinct surviving state is "
+        "probed in a forked process: Catalog(dir), measurements with the interrupted and the previously cached "
+        "configuration, and the file readers must raise or behave exactly like the complete old or new state.",
+        "Crash model: process death at system-call boundaries (page cache survives), single-process workloads; quick tier "
+        "enumerates all points of 8 workloads, thorough all 18.",
+        "engines/crashpoint.py",
+    ),
     "C09": (
         "fault_enumeration",
         "fault injection + outcome classifier under a process-group quiescence watchdog; directory tree hashes; reopen probe",
@@ -228,6 +242,8 @@ def main():
         engines=[
             dict(name="vlib", path="vlib/core.py", serves_properties=ALL,
                  kind_free_text="case runner: sharded execution, verdicts, known-finding classifier, evidence/replay writer"),
+            dict(name="crashpoint", path="engines/crashpoint.py", serves_properties=["C08"],
+                 kind_free_text="strace-based crash-point injector: trace, then SIGKILL on entry to the k-th relevant file-system call"),
             dict(name="fakepool", path="engines/fakepool.py", serves_properties=["C05"],
                  kind_free_text="in-process double of multiprocessing.Pool yielding imap_unordered results in a chosen permutation"),
             dict(name="sources", path="vlib/sources.py", serves_properties=["C02", "C18", "C09"],
